@@ -227,13 +227,21 @@ class FST:
         rules = Rules(new_rules, rules.optim)
         return IndexedGrammar(rules).remove_useless_rules()
 
+    @staticmethod
+    def _get_name_non_terminal(state_p, non_terminal, state_q):
+        """ The name, in the intersection, of a non-terminal of the grammar
+        between two states: it must not be the name of a terminal between
+        these states """
+        return str((state_p, ("non-terminal", non_terminal), state_q))
+
     def _extract_fst_duplication_rules_intersection(self, new_rules,
                                                     start_variable="S"):
         for state_p in self._final_states:
             for start_state in self._start_states:
                 new_rules.append(DuplicationRule(
                     "S",
-                    str((start_state, start_variable, state_p)),
+                    self._get_name_non_terminal(
+                        start_state, start_variable, state_p),
                     "T"))
 
     def _extract_fst_epsilon_intersection(self, new_rules):
@@ -268,21 +276,27 @@ class FST:
                     for state_q in self._states:
                         for state_r in self._states:
                             new_rules.append(DuplicationRule(
-                                str((state_p, rule.left_term, state_q)),
-                                str((state_p, rule.right_terms[0], state_r)),
-                                str((state_r, rule.right_terms[1], state_q))))
+                                self._get_name_non_terminal(
+                                    state_p, rule.left_term, state_q),
+                                self._get_name_non_terminal(
+                                    state_p, rule.right_terms[0], state_r),
+                                self._get_name_non_terminal(
+                                    state_r, rule.right_terms[1], state_q)))
             elif rule.is_production():
                 for state_p in self._states:
                     for state_q in self._states:
                         new_rules.append(ProductionRule(
-                            str((state_p, rule.left_term, state_q)),
-                            str((state_p, rule.right_term, state_q)),
+                            self._get_name_non_terminal(
+                                    state_p, rule.left_term, state_q),
+                            self._get_name_non_terminal(
+                                    state_p, rule.right_term, state_q),
                             rule.production))
             elif rule.is_end_rule():
                 for state_p in self._states:
                     for state_q in self._states:
                         new_rules.append(DuplicationRule(
-                            str((state_p, rule.left_term, state_q)),
+                            self._get_name_non_terminal(
+                                    state_p, rule.left_term, state_q),
                             str((state_p, rule.right_term, state_q)),
                             "T"))
 
@@ -309,8 +323,10 @@ class FST:
                     for state_s in self._states:
                         new_rules.append(ConsumptionRule(
                             consumption.f_parameter,
-                            str((state_r, consumption.left_term, state_s)),
-                            str((state_r, consumption.right, state_s))))
+                            self._get_name_non_terminal(
+                                state_r, consumption.left_term, state_s),
+                            self._get_name_non_terminal(
+                                state_r, consumption.right, state_s)))
 
     def __and__(self, other):
         return self.intersection(other)
